@@ -226,9 +226,11 @@ func lemmaKeysKeptApart(a, b string) (string, string) { return rKey(a), rKey(b) 
 //@   props C03
 //@   requires c != nil && c.rdb != nil
 //@   ensures r1 == nil ==> len(r0) == len(keys) && forall(i, 0, len(keys), r0[i] != nil ==> r0[i].Key == keys[i])
+// ... and its version was decoded from a value read for the prefixed key of that very slot
+//@   ensures r1 == nil ==> forall(i, 0, len(keys), r0[i] != nil ==> decodedFor(r0[i].Version, rkeyOf(keys[i])))
 //@   ensures r1 != nil ==> r0 == nil && (r1 == errors.ErrNotExist || !isClass(r1))
 //@   loop 1
-//@     invariant keys == keys0 && len(result) == len(keys) && fresh(result) && len(res) == len(keys) && 0 - 1 <= rangeindex && rangeindex <= len(res) - 1 && forall(i, 0, len(res), res[i] == nil || typeIs(res[i], string)) && forall(i, 0, len(keys), result[i] != nil ==> allocated(result[i]) && result[i].Key == keys[i])
+//@     invariant keys == keys0 && len(result) == len(keys) && fresh(result) && len(res) == len(keys) && 0 - 1 <= rangeindex && rangeindex <= len(res) - 1 && forall(i, 0, len(res), res[i] == nil || typeIs(res[i], string)) && forall(i, 0, len(keys), result[i] != nil ==> allocated(result[i]) && result[i].Key == keys[i] && decodedFor(result[i].Version, rkeyOf(keys[i]))) && forall(i, 0, len(res), res[i] != nil ==> readKey(strdata(boxedString(res[i]))) == rkeyOf(keys[i]))
 
 // [C03] "ListKeys returns exactly the present keys matching the pattern", the client's half: ListKeys issues one SCAN from
 // cursor 0 whose MATCH is the prefixed pattern; the iterator it returns hands out, one by one and in the order the scan
